@@ -6,8 +6,8 @@ package main
 // nil-vs-empty distinctions are the ones the chain can actually see.
 
 import (
-	"encoding/json"
 	"encoding/base64"
+	"encoding/json"
 	"fmt"
 	"math/rand"
 	"strings"
@@ -459,6 +459,57 @@ func (e *didEnv) monC11GenesisKeySpelling() {
 	}
 }
 
+// monC05GenesisTombstoneResidue: genesis validation accepts, as a tombstone, an entry whose document has no id and a
+// non-initial sequence — also when the document still carries content (old keys, services).  Either validation refuses
+// such a file, or the chain started from it treats the DID as deactivated: not found by the read operation, and not
+// updated, deactivated or created again — also not with the residual key.
+func (e *didEnv) monC05GenesisTombstoneResidue() {
+	e.s.Emit("mon.c05.genesis-tombstone-with-residue", guard(func() string {
+		k := newDidKey("gen-residue")
+		did := didtypes.NewDID(k.pub)
+		vmID := did + "#key1"
+		vm := &didtypes.VerificationMethod{Id: vmID, Type: didtypes.ES256K_2019, Controller: did, PublicKeyBase58: k.b58}
+		residue := didtypes.DIDDocument{VerificationMethods: []*didtypes.VerificationMethod{vm}, Authentications: []didtypes.VerificationRelationship{rel(vmID)},
+			Services: []*didtypes.Service{{Id: "s1", Type: "T", ServiceEndpoint: "https://x"}}}
+		w := didtypes.NewDIDDocumentWithSeq(&residue, 7)
+		gs := didtypes.GenesisState{Documents: map[string]*didtypes.DIDDocumentWithSeq{didtypes.GenesisDIDDocumentKey{DID: did}.Marshal(): &w}}
+		if err := gs.Validate(); err != nil {
+			return "pass #rejected-by-genesis-validation"
+		}
+		bz, err := e.c.App.AppCodec().MarshalJSON(&gs)
+		if err != nil {
+			return "pass #not-encodable"
+		}
+		c2, err := NewChain(memDB(), tmpHome(), nil, 0, map[string]json.RawMessage{didtypes.ModuleName: bz})
+		if err != nil {
+			return "pass #rejected-by-init-genesis"
+		}
+		c2.Begin(c2.Time)
+		g := sdk.WrapSDKContext(c2.DeliverCtx())
+		if _, err := c2.App.DidKeeper.DID(g, &didtypes.QueryDIDRequest{DidBase64: base64.StdEncoding.EncodeToString([]byte(did))}); err == nil {
+			return "fail #deactivated-did-is-reported-as-found"
+		}
+		ms := didkeeper.NewMsgServerImpl(c2.App.DidKeeper)
+		from := sdk.AccAddress([]byte("relayer-1-address-xx")).String()
+		full := didtypes.NewDIDDocument(did, didtypes.WithVerificationMethods([]*didtypes.VerificationMethod{vm}),
+			didtypes.WithAuthentications([]didtypes.VerificationRelationship{rel(vmID)}))
+		for _, seq := range []uint64{7, 0} {
+			sig, _ := didtypes.Sign(&full, seq, k.priv)
+			if _, err := ms.UpdateDID(g, &didtypes.MsgUpdateDIDRequest{Did: did, Document: &full, VerificationMethodId: vmID, Signature: sig, FromAddress: from}); err == nil {
+				return "fail #deactivated-did-updated-with-the-residual-key"
+			}
+			if _, err := ms.CreateDID(g, &didtypes.MsgCreateDIDRequest{Did: did, Document: &full, VerificationMethodId: vmID, Signature: sig, FromAddress: from}); err == nil {
+				return "fail #deactivated-did-created-again"
+			}
+			sigd, _ := didtypes.Sign(&didtypes.DIDDocument{Id: did}, seq, k.priv)
+			if _, err := ms.DeactivateDID(g, &didtypes.MsgDeactivateDIDRequest{Did: did, VerificationMethodId: vmID, Signature: sigd, FromAddress: from}); err == nil {
+				return "fail #deactivated-did-deactivated-again"
+			}
+		}
+		return "pass"
+	}))
+}
+
 func (e *didEnv) dump() {
 	e.s.Emit("did.dump", guard(func() string {
 		k := e.c.App.DidKeeper
@@ -509,7 +560,9 @@ func caseVariant(did string) string {
 	return did
 }
 
-func rel(id string) didtypes.VerificationRelationship { return didtypes.NewVerificationRelationship(id) }
+func rel(id string) didtypes.VerificationRelationship {
+	return didtypes.NewVerificationRelationship(id)
+}
 func ded(vm didtypes.VerificationMethod) didtypes.VerificationRelationship {
 	return didtypes.NewVerificationRelationshipDedicated(vm)
 }
@@ -523,7 +576,7 @@ var foreignControllers []string
 func genDoc(rng *rand.Rand, docID string, idt *didIdent) (*didtypes.DIDDocument, map[string]*didKey) {
 	auth := map[string]*didKey{}
 	var vms []*didtypes.VerificationMethod
-	var au, as, ka []didtypes.VerificationRelationship
+	var au, as, ka, ci, cd []didtypes.VerificationRelationship
 	types := []string{didtypes.ES256K_2019, didtypes.ES256K_2019, didtypes.ES256K_2018, didtypes.ED25519_2018, "SomethingElse2020"}
 	for i, k := range idt.keys {
 		if rng.Intn(3) == 0 {
@@ -536,7 +589,16 @@ func genDoc(rng *rand.Rand, docID string, idt *didIdent) (*didtypes.DIDDocument,
 			ctl = foreignControllers[rng.Intn(len(foreignControllers))]
 		}
 		vm := didtypes.VerificationMethod{Id: vmID, Type: typ, Controller: ctl, PublicKeyBase58: k.b58}
-		switch rng.Intn(6) {
+		switch rng.Intn(8) {
+		case 6: // only under capability invocation (referenced) — an agent's key, not an authentication key
+			v := vm
+			vms = append(vms, &v)
+			ci = append(ci, rel(vmID))
+		case 7: // dedicated under capability delegation, referenced under assertion
+			v := vm
+			vms = append(vms, &v)
+			cd = append(cd, ded(vm))
+			as = append(as, rel(vmID))
 		case 0, 1: // method + referenced under authentication
 			v := vm
 			vms = append(vms, &v)
@@ -581,6 +643,7 @@ func genDoc(rng *rand.Rand, docID string, idt *didIdent) (*didtypes.DIDDocument,
 	}
 	d := didtypes.NewDIDDocument(docID, didtypes.WithVerificationMethods(vms), didtypes.WithAuthentications(au))
 	d.AssertionMethods, d.KeyAgreements = as, ka
+	d.CapabilityInvocations, d.CapabilityDelegations = ci, cd
 	if rng.Intn(3) == 0 {
 		d.Services = []*didtypes.Service{{Id: "s1", Type: "T", ServiceEndpoint: "https://x"}}
 	}
@@ -924,6 +987,7 @@ func init() {
 		e.monC11Genesis()
 		e.monC11GenesisKeySpelling()
 		e.monC05GenesisSeqWrap()
+		e.monC05GenesisTombstoneResidue()
 		for h := 0; h < n; h++ {
 			didHistory(e, rng, ids, rel, 15+rng.Intn(30))
 		}
